@@ -22,6 +22,20 @@ use std::sync::Mutex;
 /// the maps produced by freshly started child processes.
 pub static C06_OBS: Mutex<Vec<(u64, u64)>> = Mutex::new(Vec::new());
 
+/// Observations of another process (file named by VERIF_C06_REF: JSON list of
+/// [case hash, observation hash]); when present every case is compared against it.
+pub fn c06_reference() -> &'static HashMap<u64, u64> {
+    static REF: std::sync::OnceLock<HashMap<u64, u64>> = std::sync::OnceLock::new();
+    REF.get_or_init(|| match std::env::var("VERIF_C06_REF") {
+        Ok(path) => {
+            let text = std::fs::read_to_string(&path).unwrap_or_else(|e| panic!("HARNESS: cannot read {path}: {e}"));
+            let v: Vec<(u64, u64)> = serde_json::from_str(&text).expect("HARNESS: C06 reference file");
+            v.into_iter().collect()
+        }
+        Err(_) => HashMap::new(),
+    })
+}
+
 pub struct C06 {
     pub params: Params,
     pub stage: &'static str,
@@ -86,7 +100,19 @@ impl C06 {
             }
         }
         if let Some(f) = first {
-            C06_OBS.lock().unwrap().push((rep.case_hash, hash_of(&f)));
+            let h = hash_of(&f);
+            C06_OBS.lock().unwrap().push((rep.case_hash, h));
+            if let Some(&other) = c06_reference().get(&rep.case_hash) {
+                rep.labels.push("compared-cross-process");
+                if other != h {
+                    rep.failure = Some(Failure {
+                        signature: "C06:cross-process-divergence".into(),
+                        detail: format!(
+                            "this process observed (hash {h:016x}):\n{f}\nanother process observed a different result (hash {other:016x}) for the same case"
+                        ),
+                    });
+                }
+            }
         }
     }
 }
